@@ -41,6 +41,7 @@ Done == phase = "done"
 Rec ==
   IF role = "client"
   THEN [role |-> "client", abs |-> abs, path |-> path, huge |-> huge, fam |-> fam, fault |-> fault,
+        remover |-> remover, verdict |-> verdict,
         valid |-> Valid(abs, path, fam) /\ ~huge,
         exp |-> Verdict(abs, path, huge, fam),
         madeCreated |-> obsMade.created, madeResult |-> obsMade.result,
@@ -49,6 +50,6 @@ Rec ==
         owner |-> Owner(obj)]
 
 \* the server's "either" case yields two behaviours with the same record: print one
-EmitTrace == (Done /\ ret # "nil" /\ (role = "server" => (ServerExpect(obj, cres) = "either" => sres = "accept")))
+EmitTrace == (Done /\ (verdict = "any" => ret # "nil") /\ (role = "server" => (ServerExpect(obj, cres) = "either" => sres = "accept")))
                => PrintT(ToJson([scn |-> Rec]))
 =============================================================================
